@@ -512,3 +512,31 @@ MUTANTS += [
                         continue
 """, 'an include that cannot be read is skipped instead of failing the compilation'),
 ]
+
+# ---- more behaviour-preserving refactors ---------------------------------------------
+EQUIVALENT += [
+    ('equiv_children_prepended', ['C09', 'C10', 'C12', 'C13', 'C14', 'C16'], AG,
+     "                    ag_node.children.append(target_node)\n                    target_node.parents.append(ag_node)",
+     "                    ag_node.children.insert(0, target_node)\n                    target_node.parents.insert(0, ag_node)",
+     'children / parents kept in another order'),
+    ('equiv_load_assets_sorted', ['C07', 'C16', 'C18'], M,
+     "        for asset_id, asset_object in serialized_object['assets'].items():",
+     "        for asset_id, asset_object in sorted(serialized_object['assets'].items(), key=lambda kv: int(kv[0])):",
+     'the native loader adds assets in id order'),
+    ('equiv_node_dict_extra_key', ['C10', 'C14', 'C16', 'C19'], ND,
+     "        if self.extras:\n            node_dict['extras'] = self.extras\n",
+     "        if self.extras:\n            node_dict['extras'] = self.extras\n        node_dict['n_children'] = len(self.children)\n",
+     'the serialised node carries an additional derived key'),
+    ('equiv_attacker_id_exception_class', ['C09', 'C11'], AG,
+     "            raise ValueError(f'Attacker index {attacker_id} already in use.')",
+     "            raise KeyError(f'Attacker index {attacker_id} already in use.')",
+     'another exception class'),
+    ('equiv_prune_reversed', ['C13', 'C09'], AP,
+     "    for node in list(graph.nodes):\n        if (node.type == 'or' or node.type == 'and') and \\",
+     "    for node in reversed(list(graph.nodes)):\n        if (node.type == 'or' or node.type == 'and') and \\",
+     'prune walks the node list backwards'),
+    ('equiv_compiler_error_class', ['C17', 'C04'], CO,
+     "        raise MalCompilerError(\n            f'{self.filename}:{line}:{column}: {msg}'\n        )",
+     "        raise SyntaxError(\n            f'{self.filename}:{line}:{column}: {msg}'\n        )",
+     'syntax errors reported with a builtin exception class'),
+]
